@@ -48,7 +48,17 @@ func init() {
 func init() {
 	register(&PropCheck{
 		ID: "C05", Pkgs: []string{"frame"}, FnRe: `^VerifC05_`, Level: "model_checking",
-		Gen:  func(c *CheckCtx) error { return genFrameHarnesses(c, "VerifC05_Ops", `verifPartialOps(%q, %s)`) },
+		Gen: func(c *CheckCtx) error {
+			if err := genFrameHarnesses(c, "VerifC05_OpsLZ4", `verifPartialOpsAlg(%q, %s, 0)`); err != nil {
+				return err
+			}
+			if c.Tier == "thorough" {
+				if err := genFrameHarnesses(c, "VerifC05_OpsSnappy", `verifPartialOpsAlg(%q, %s, 1)`); err != nil {
+					return err
+				}
+			}
+			return genFrameHarnesses(c, "VerifC05_Ops", `verifPartialOps(%q, %s)`)
+		},
 		Rule: "one harness per (message kind, version): every raw/partial codec path on the bytes of an arbitrary version-valid frame followed by an arbitrary suffix; plus re-encode harnesses on fully symbolic inputs",
 	})
 }
@@ -89,7 +99,7 @@ func init() {
 	register(&PropCheck{
 		ID: "C17", Pkgs: []string{"frame", "segment"}, FnRe: `^VerifC17_`, Level: "model_checking",
 		Gen:  genC17,
-		Rule: "one harness per type with a DeepCopy method found by go/types in the current tree; a case is one shape (all sites populated with one / two elements, all nil, all empty, each single site nil or empty) with every scalar symbolic; equality is reflect.DeepEqual-like and generated from the type; separation is computed on the engine's concrete heap",
+		Rule: "one harness per type with a DeepCopy method found by go/types in the current tree; a case is one shape (all sites populated with one / two elements, all nil, all empty, two elements with a nil entry after / before a non-nil one in every collection of nil-able elements, each single site nil or empty) with every scalar symbolic; equality is reflect.DeepEqual-like and generated from the type; separation is computed on the engine's concrete heap",
 	})
 }
 
